@@ -372,3 +372,285 @@ def regen(repo, lean_dir):
     info['reduction_branches'] = nobl
     info['untranslatable'] = info['untranslatable'] + errors
     return info
+
+
+# ======================================================================================================
+# Comparisons: Qube.__eq__ / __ne__ (qube.py), Scalar.__lt__ __le__ __gt__ __ge__ (scalar.py) and the mask rule of
+# tvl.py `_tvl_op`.  Each is executed symbolically once per REPRESENTATION CONFIGURATION
+#     py  : shape (), the comparison of the values is one Python/NumPy scalar, masks are single bools
+#     pyb : the same with builtins=False (ordered comparisons only)
+#     sca : values with a shape, both masks single bools (their & and ^ are single bools)
+#     arr : values with a shape, the combined mask is an array
+# into one Boolean function of (c, sm, am): c = the raw comparison of the two items, sm/am = the operands' mask bits at
+# the element.  Accepted statements (anything else -> Untranslatable: the tie is reported broken):
+#   arg = self._compatible_arg(arg) / Scalar.as_scalar(arg); Units.require_compatible(…); `if …_denom_…: raise`
+#   if arg is None: return <True|False>                       -> recorded as the incompatible-operand answer
+#   compare = (self._values_ <op> arg._values_)               -> c, <op> recorded
+#   if self._rank_: compare = np.all|np.any(compare, axis=…)  -> item reduction recorded (c is then the whole-item compare)
+#   x = <mask expression over self._mask_, arg._mask_, antimask, & | ^ ~, and/or/not, Qube.or_/and_, np.logical_*>
+#   if np.shape(x) and np.shape(x) != np.shape(compare): x = np.broadcast_to(x, …) …     -> identity on elements
+#   if not Units.can_match(…): …                               -> skipped (modelled operands have compatible units)
+#   if np.isscalar(compare) [and builtins]: / if np.isscalar(x): / if np.shape(x):  -> decided by the configuration
+#   if <mask expression>: <body>                               -> conditional (single-bool masks only)
+#   compare.fill(K) ; compare[x] = K ; compare &= <mask expression>
+#   result = Qube.BOOLEAN_CLASS(compare) ; result._truth_if_all_|_truth_if_any_ = True ; return result|bool(compare)|K
+
+class CmpSym:
+    def __init__(self, cfg):
+        self.cfg = cfg                  # 'py' | 'pyb' | 'sca' | 'arr'
+        self.meta = {'sym': None, 'itemred': 'none', 'incompat': None, 'truth': 'none'}
+
+    # --- mask / compare expressions
+    def ex(self, e, env):
+        if isinstance(e, ast.Constant) and isinstance(e.value, bool):
+            return 'true' if e.value else 'false'
+        if isinstance(e, ast.Name):
+            if e.id in env: return env[e.id]
+            raise Untranslatable('unbound name ' + e.id)
+        if isinstance(e, ast.Attribute) and isinstance(e.value, ast.Name):
+            k = (e.value.id, e.attr)
+            if k == ('self', '_mask_'): return 'sm'
+            if k == ('arg', '_mask_'): return 'am'
+            if k == ('self', 'antimask'): return '(!sm)'
+            if k == ('arg', 'antimask'): return '(!am)'
+            raise Untranslatable('attribute ' + ast.unparse(e))
+        if isinstance(e, ast.Compare) and len(e.ops) == 1 and ast.unparse(e.left) == 'self._values_' \
+                and ast.unparse(e.comparators[0]) == 'arg._values_':
+            sym = {ast.Eq: 'eq', ast.NotEq: 'ne', ast.Lt: 'lt', ast.LtE: 'le', ast.Gt: 'gt', ast.GtE: 'ge'}.get(type(e.ops[0]))
+            if sym is None or self.meta['sym'] not in (None, sym):
+                raise Untranslatable('comparison ' + ast.unparse(e))
+            self.meta['sym'] = sym
+            return 'c'
+        if isinstance(e, ast.BinOp) and isinstance(e.op, (ast.BitAnd, ast.BitOr, ast.BitXor)):
+            op = {ast.BitAnd: '&&', ast.BitOr: '||', ast.BitXor: '^^'}[type(e.op)]
+            return '(%s %s %s)' % (self.ex(e.left, env), op, self.ex(e.right, env))
+        if isinstance(e, ast.BoolOp):
+            if self.cfg == 'arr':
+                raise Untranslatable('and/or on array masks')
+            op = ' && ' if isinstance(e.op, ast.And) else ' || '
+            return '(' + op.join(self.ex(x, env) for x in e.values) + ')'
+        if isinstance(e, ast.UnaryOp) and isinstance(e.op, (ast.Invert, ast.Not)):
+            return '(!%s)' % self.ex(e.operand, env)
+        if isinstance(e, ast.Call):
+            f = dotted(e.func)
+            if f == 'bool' and len(e.args) == 1: return self.ex(e.args[0], env)
+            if f == 'np.logical_not' and len(e.args) == 1: return '(!%s)' % self.ex(e.args[0], env)
+            two = {'np.logical_and': '&&', 'Qube.and_': '&&', 'np.logical_or': '||', 'Qube.or_': '||', 'np.logical_xor': '^^'}
+            if f in two and len(e.args) == 2:
+                return '(%s %s %s)' % (self.ex(e.args[0], env), two[f], self.ex(e.args[1], env))
+        raise Untranslatable('expression ' + ast.unparse(e))
+
+    # --- tests decided by the representation configuration: True / False / None (symbolic)
+    def static(self, t):
+        s = ast.unparse(t)
+        scalar_cmp = self.cfg in ('py', 'pyb')
+        if s == 'np.isscalar(compare)': return scalar_cmp
+        if s == 'np.isscalar(compare) and builtins': return self.cfg == 'py'
+        if s.startswith('np.isscalar(') and s.endswith(')') and s[12:-1].isidentifier(): return self.cfg != 'arr'
+        if s.startswith('np.shape(') and s.endswith(')') and s[9:-1].isidentifier(): return self.cfg == 'arr'
+        return None
+
+    def run(self, stmts, env):
+        """-> ('ret', expr) | ('cont', env)"""
+        env = dict(env)
+        for i, st in enumerate(stmts):
+            rest = stmts[i + 1:]
+            if isinstance(st, ast.Expr) and isinstance(st.value, ast.Constant):
+                continue
+            if isinstance(st, ast.Expr) and isinstance(st.value, ast.Call):
+                f = dotted(st.value.func)
+                if f == 'Units.require_compatible':
+                    continue
+                if f == 'compare.fill' and len(st.value.args) == 1:
+                    env['compare'] = self.ex(st.value.args[0], env)
+                    continue
+                raise Untranslatable('call ' + ast.unparse(st))
+            if isinstance(st, ast.Assign) and len(st.targets) == 1:
+                t, v = st.targets[0], st.value
+                if isinstance(t, ast.Name):
+                    if t.id == 'arg' and isinstance(v, ast.Call) and dotted(v.func) in ('self._compatible_arg', 'Scalar.as_scalar'):
+                        continue
+                    if t.id == 'result' and isinstance(v, ast.Call) and dotted(v.func) in ('Qube.BOOLEAN_CLASS', 'Boolean') \
+                            and len(v.args) == 1:
+                        env['result'] = self.ex(v.args[0], env)
+                        continue
+                    env[t.id] = self.ex(v, env)
+                    continue
+                if isinstance(t, ast.Attribute) and ast.unparse(t) in ('result._truth_if_all_', 'result._truth_if_any_') \
+                        and isinstance(v, ast.Constant) and v.value is True:
+                    self.meta['truth'] = 'ifAll' if t.attr == '_truth_if_all_' else 'ifAny'
+                    continue
+                if isinstance(t, ast.Subscript) and ast.unparse(t.value) == 'compare' and self.cfg == 'arr':
+                    env['compare'] = '(bif %s then %s else %s)' % (self.ex(t.slice, env), self.ex(v, env), env['compare'])
+                    continue
+                raise Untranslatable('assignment ' + ast.unparse(st))
+            if isinstance(st, ast.AugAssign) and isinstance(st.target, ast.Name) and isinstance(st.op, (ast.BitAnd, ast.BitOr)):
+                op = '&&' if isinstance(st.op, ast.BitAnd) else '||'
+                env[st.target.id] = '(%s %s %s)' % (env[st.target.id], op, self.ex(st.value, env))
+                continue
+            if isinstance(st, ast.Return):
+                v = st.value
+                if isinstance(v, ast.Name) and v.id == 'result':
+                    return ('ret', env['result'])
+                return ('ret', self.ex(v, env))
+            if isinstance(st, ast.If):
+                s = ast.unparse(st.test)
+                if s == 'arg is None':
+                    if not (len(st.body) == 1 and isinstance(st.body[0], ast.Return) and isinstance(st.body[0].value, ast.Constant)
+                            and isinstance(st.body[0].value.value, bool)) or st.orelse:
+                        raise Untranslatable('incompatible-operand exit')
+                    self.meta['incompat'] = st.body[0].value.value
+                    continue
+                if s == 'self._rank_':
+                    b = st.body
+                    if len(b) == 1 and isinstance(b[0], ast.Assign) and ast.unparse(b[0].targets[0]) == 'compare' \
+                            and isinstance(b[0].value, ast.Call) and dotted(b[0].value.func) in ('np.all', 'np.any') \
+                            and ast.unparse(b[0].value.args[0]) == 'compare' and not st.orelse:
+                        self.meta['itemred'] = dotted(b[0].value.func)[3:]
+                        continue
+                    raise Untranslatable('item reduction')
+                if s.startswith('not Units.can_match(') and not st.orelse:
+                    continue
+                if ('_denom_' in s) and len(st.body) == 1 and isinstance(st.body[0], ast.Raise) and not st.orelse:
+                    continue
+                if ' != np.shape(compare)' in s and s.startswith('np.shape('):
+                    for b in st.body:
+                        if not (isinstance(b, ast.Assign) and isinstance(b.value, ast.Call) and dotted(b.value.func) == 'np.broadcast_to'
+                                and ast.unparse(b.targets[0]) == ast.unparse(b.value.args[0])):
+                            raise Untranslatable('broadcast fix-up ' + ast.unparse(b))
+                    if st.orelse: raise Untranslatable('broadcast fix-up with else')
+                    continue
+                dec = self.static(st.test)
+                if dec is not None:
+                    r = self.run((st.body if dec else st.orelse) + rest, env)
+                    return r
+                # symbolic condition on single-bool masks
+                if self.cfg == 'arr':
+                    raise Untranslatable('truth value of an array mask: ' + s)
+                cond = self.ex(st.test, env)
+                ra = self.run(st.body + rest, env)
+                rb = self.run(st.orelse + rest, env)
+                if ra[0] != 'ret' or rb[0] != 'ret':
+                    raise Untranslatable('path without a return')
+                return ('ret', '(bif %s then %s else %s)' % (cond, ra[1], rb[1]))
+            raise Untranslatable('statement ' + ast.unparse(st).split('\n')[0])
+        return ('cont', env)
+
+
+CMP_TARGETS = [('polymath/qube.py', 'Qube', '__eq__', 'eq', ('py', 'sca', 'arr')),
+               ('polymath/qube.py', 'Qube', '__ne__', 'ne', ('py', 'sca', 'arr')),
+               ('polymath/scalar.py', 'Scalar', '__lt__', 'lt', ('py', 'pyb', 'sca', 'arr')),
+               ('polymath/scalar.py', 'Scalar', '__le__', 'le', ('py', 'pyb', 'sca', 'arr')),
+               ('polymath/scalar.py', 'Scalar', '__gt__', 'gt', ('py', 'pyb', 'sca', 'arr')),
+               ('polymath/scalar.py', 'Scalar', '__ge__', 'ge', ('py', 'pyb', 'sca', 'arr'))]
+ALL_CFG = ('py', 'pyb', 'sca', 'arr')
+
+
+def tvl_mask_rule(repo):
+    """mask handed to comparison._set_mask_ on the element-wise path of tvl.py `_tvl_op`"""
+    tree = ast.parse(open(os.path.join(repo, 'polymath/extensions/tvl.py')).read())
+    f = find_func(tree, '_tvl_op')
+    s = CmpSym('arr')
+    env = {}
+    out = None
+    for st in f.body:
+        if isinstance(st, ast.Expr) and isinstance(st.value, ast.Constant):
+            continue
+        if isinstance(st, ast.If):
+            t = ast.unparse(st.test)
+            if t == 'isinstance(arg, Qube)':
+                if not (len(st.body) == 1 and isinstance(st.body[0], ast.Assign) and ast.unparse(st.body[0].targets[0]) == 'arg_mask'):
+                    raise Untranslatable('arg_mask binding')
+                env['arg_mask'] = s.ex(st.body[0].value, env)
+                continue
+            if t == 'isinstance(comparison, bool)':
+                continue            # single truth value (shape () / incompatible operands): covered by T1 only
+            if ' != comparison._shape_' in t and t.startswith('np.shape('):
+                for b in st.body:
+                    if not (isinstance(b, ast.Assign) and isinstance(b.value, ast.Call) and dotted(b.value.func) == 'np.broadcast_to'
+                            and ast.unparse(b.targets[0]) == ast.unparse(b.value.args[0])):
+                        raise Untranslatable('broadcast fix-up ' + ast.unparse(b))
+                continue
+            raise Untranslatable('statement ' + t)
+        if isinstance(st, ast.Assign) and len(st.targets) == 1 and isinstance(st.targets[0], ast.Name):
+            env[st.targets[0].id] = s.ex(st.value, env)
+            continue
+        if isinstance(st, ast.Expr) and isinstance(st.value, ast.Call) and dotted(st.value.func) == 'comparison._set_mask_' \
+                and len(st.value.args) == 1:
+            out = s.ex(st.value.args[0], env)
+            continue
+        if isinstance(st, ast.Return) and ast.unparse(st.value) == 'comparison':
+            break
+        raise Untranslatable('statement ' + ast.unparse(st).split('\n')[0])
+    if out is None:
+        raise Untranslatable('no comparison._set_mask_(…)')
+    return out, f.lineno
+
+
+def gen_comparisons(repo):
+    out, errors = [], []
+    for path, cls, fn, name, cfgs in CMP_TARGETS:
+        try:
+            tree = ast.parse(open(os.path.join(repo, path)).read())
+            f = find_func(tree, fn, cls)
+            exprs, metas = {}, []
+            for cfg in cfgs:
+                s = CmpSym(cfg)
+                r = s.run(f.body, {})
+                if r[0] != 'ret':
+                    raise Untranslatable('no return on configuration ' + cfg)
+                exprs[cfg] = r[1]
+                metas.append(s.meta)
+            # a Python bool (configuration py) carries no truth flag; every object-returning configuration must set the same one
+            objm = [mm for cfg, mm in zip(cfgs, metas) if cfg != 'py']
+            if any({k: v for k, v in mm.items() if k != 'truth'} != {k: v for k, v in metas[0].items() if k != 'truth'} for mm in metas) \
+                    or any(mm['truth'] != objm[0]['truth'] for mm in objm):
+                raise Untranslatable('configurations disagree on operator / item reduction / truth flag')
+            m = objm[0]
+            if m['sym'] is None:
+                raise Untranslatable('no comparison of the values found')
+            lines = ['/-- regenerated from %s:%d `%s` -/' % (path, f.lineno, fn),
+                     'def %s_sym : CmpOp := .%s' % (name, m['sym']),
+                     'def %s_itemred : ItemRed := .%s' % (name, m['itemred']),
+                     'def %s_truth : TruthFlag := .%s' % (name, m['truth']),
+                     'def %s_incompat : Option Bool := %s' % (name, 'none' if m['incompat'] is None else 'some ' + str(m['incompat']).lower())]
+            for cfg in ALL_CFG:
+                e = exprs.get(cfg, exprs['py'] if cfg == 'pyb' else None)
+                lines.append('def %s_%s (c sm am : Bool) : Bool := %s' % (name, cfg, e))
+            out.append('\n'.join(lines) + '\n')
+        except (Untranslatable, SyntaxError, OSError, KeyError) as e:
+            errors.append('%s:%s: %s' % (path, fn, e))
+            lines = ['/-- NOT TRANSLATABLE (%s): placeholders that fail their obligations -/' % str(e).replace('-/', '- /'),
+                     'def %s_sym : CmpOp := .%s' % (name, 'ne' if name == 'eq' else 'eq'),
+                     'def %s_itemred : ItemRed := .none' % name, 'def %s_truth : TruthFlag := .none' % name,
+                     'def %s_incompat : Option Bool := none' % name]
+            for cfg in ALL_CFG:
+                lines.append('def %s_%s (c sm am : Bool) : Bool := (c ^^ sm) ^^ am' % (name, cfg))
+            out.append('\n'.join(lines) + '\n')
+    try:
+        e, ln = tvl_mask_rule(repo)
+        out.append('/-- regenerated from polymath/extensions/tvl.py:%d `_tvl_op`: the mask given to the comparison (element-wise path) -/\n'
+                   'def tvl_mask (sm am : Bool) : Bool := %s\n' % (ln, e))
+    except (Untranslatable, SyntaxError, OSError, KeyError) as e:
+        errors.append('polymath/extensions/tvl.py:_tvl_op: %s' % e)
+        out.append('/-- NOT TRANSLATABLE (%s) -/\ndef tvl_mask (sm am : Bool) : Bool := !(sm || am)\n' % str(e).replace('-/', '- /'))
+    src = ('import PMV.Model.CmpMeta\n/- GENERATED by harness/c14_py2lean.py from /repo on every run — do not edit.\n'
+           '   ==, !=, <, <=, >, >= as Boolean functions of (raw comparison c, mask bits sm am), one per representation\n'
+           '   configuration (py: shape () -> Python bool; pyb: shape (), builtins=False; sca: single-bool masks; arr: array mask). -/\n'
+           'set_option linter.unusedVariables false\nnamespace PMV.Gen.Cmp\nopen PMV.Logic3\n\n' + '\n'.join(out) + '\nend PMV.Gen.Cmp\n')
+    return src, errors
+
+
+_regen_2 = regen
+
+
+def regen(repo, lean_dir):
+    info = _regen_2(repo, lean_dir)
+    src, errors = gen_comparisons(repo)
+    path = os.path.join(lean_dir, 'PMV', 'Gen', 'Cmp.lean')
+    if not os.path.exists(path) or open(path).read() != src:
+        open(path, 'w').write(src)
+    info['files'].append('PMV/Gen/Cmp.lean')
+    info['comparison_functions'] = len(CMP_TARGETS) + 1
+    info['untranslatable'] = info['untranslatable'] + errors
+    return info
